@@ -15,6 +15,7 @@ type Clause struct {
 	Text string
 	E    Expr
 	Es   []Expr // for modifies lists
+	Index Expr  // ghost_set of one array element: the index
 	File string
 	Line int
 }
@@ -42,6 +43,7 @@ type Contract struct {
 	Forwards      []*ForwardCase
 	Modifies      []*Clause
 	Lets          []*Clause // Text = name, E = expr
+	GhostSets     []*Clause // Text = ghost variable, E = value assigned at function entry
 	MayPanic      bool
 	Inline        bool
 	Trusted       bool
@@ -114,7 +116,7 @@ func NewContractSet() *ContractSet {
 var ctPrefix = regexp.MustCompile(`^\s*//\s?@ ?(.*)$`)
 
 var clauseKeywords = map[string]bool{"requires": true, "ensures": true, "xensures": true, "panics": true, "may_panic": true,
-	"modifies": true, "inline": true, "trusted": true, "loop": true, "let": true, "noreturn": true, "pure": true, "havoc_callees": true, "runtime_panics": true, "use": true, "cases": true, "forwards": true}
+	"modifies": true, "inline": true, "trusted": true, "loop": true, "let": true, "noreturn": true, "pure": true, "havoc_callees": true, "runtime_panics": true, "use": true, "cases": true, "forwards": true, "ghost_set": true}
 var topKeywords = map[string]bool{"func": true, "iface": true, "extern": true, "ghost": true, "spec": true, "lemma": true, "const_global": true, "macro": true, "iface_log": true, "closed_world": true, "structural": true}
 
 // ParseContractFile parses one file. pkgPath is the import path the file belongs to (used to
@@ -434,6 +436,53 @@ func (cs *ContractSet) ParseContractText(data, path, pkgPath string) error {
 				}
 				c.Text = strings.TrimSpace(s.rest[:k])
 				cur.Lets = append(cur.Lets, c)
+			case "ghost_set":
+				// ghost_set NAME = EXPR: ghost code at the entry of the function: the ghost variable NAME is
+				// assigned the value EXPR has on entry. Verifying the body starts from that assignment; a caller
+				// sees NAME among the modified locations and NAME == old(EXPR) after a normal return.
+				k := strings.Index(s.rest, "=")
+				if k < 0 {
+					return fail(s.line, "ghost_set NAME = expr")
+				}
+				gname, gexpr := strings.TrimSpace(s.rest[:k]), strings.TrimSpace(s.rest[k+1:])
+				c, err := mkClause("ghost_set", gexpr, s.line)
+				if err != nil {
+					return err
+				}
+				c.Text = gname
+				cur.GhostSets = append(cur.GhostSets, c)
+				gbase, gidx := gname, ""
+				if b := strings.Index(gname, "["); b >= 0 && strings.HasSuffix(gname, "]") {
+					// one element of a ghost array: NAME[INDEX] = EXPR (INDEX is evaluated on entry as well)
+					gbase, gidx = strings.TrimSpace(gname[:b]), strings.TrimSpace(gname[b+1:len(gname)-1])
+					ix, err := mkClause("ghost_set-index", gidx, s.line)
+					if err != nil {
+						return err
+					}
+					c.Text = gbase
+					c.Index = ix.E
+				}
+				m, err := mkList("modifies", gbase, s.line)
+				if err != nil {
+					return err
+				}
+				cur.Modifies = append(cur.Modifies, m)
+				post := gname + " == old(" + gexpr + ")"
+				if gidx != "" {
+					post = gbase + "[old(" + gidx + ")] == old(" + gexpr + ")"
+				}
+				en, err := mkClause("ensures", post, s.line)
+				if err != nil {
+					return err
+				}
+				cur.Ensures = append(cur.Ensures, en)
+				if gidx != "" {
+					fr, err := mkClause("ensures", "forall ghostIdx uint64 :: ghostIdx != old("+gidx+") ==> "+gbase+"[ghostIdx] == old("+gbase+"[ghostIdx])", s.line)
+					if err != nil {
+						return err
+					}
+					cur.Ensures = append(cur.Ensures, fr)
+				}
 			case "may_panic":
 				cur.MayPanic = true
 			case "inline":
